@@ -214,6 +214,10 @@ def rule_discrete_search(ck, rid_safe="C07.R3", rid_max=None, which=("safe", "ma
                     if exhausted:
                         flag("safe", st, "a candidate is read with an index that is known to be negative (wraps to the largest level)", "discrete:candidate")
                     return [("cand", "U", 0, exhausted, top)]
+                # the top level written before the search starts (levels[len(levels) - 1] / levels[-1]): the first candidate, unchecked
+                if val == "init" and isinstance(v, ast.Subscript) and canon(v.value) == levels and (
+                        linear(fl.expand(v.slice, n), norm=canon) == Lin({f"len({levels})": 1}, -1) or canon(v.slice) == "-1"):
+                    return [("cand", "U", 0, exhausted, True)]
                 flag("safe", st, f"`{canon(v)[:60]}` is written into the working copy: not a candidate level at the current position, not 0", "discrete:candidate")
                 return [("other", "U", pending, exhausted, top)]
             # other mutation of the working copy
